@@ -3,6 +3,7 @@ The SM serializer as generated from simfile/base.py and simfile/sm.py (BaseSimfi
 SMChart.serialize) equals the model's serSM — the function the C01/C04/C05 round-trip theorems are about.
 -/
 import Simfile.Gen.Code.Serialize
+import Simfile.Props.GenEq.Basic
 namespace Simfile.GenEq
 open Simfile
 
@@ -21,19 +22,6 @@ theorem serSMCharts_eq (cs : List SMChart) :
   unfold GenCode.serSMCharts
   simp only [serSMChart_eq, List.append_nil, nl]
   rfl
-
-theorem valueItems (k : Str) (v : Option Str) :
-    (if v = none then [Item.param ⟨[k]⟩, Item.text ['\n']]
-     else if k ∈ T.multiValue then [Item.param ⟨[k] ++ splitOn ':' (v.getD [])⟩, Item.text ['\n']]
-     else [Item.param ⟨[k, v.getD []]⟩, Item.text ['\n']]) = [Item.param (valueParam k v), Item.text nl] := by
-  cases v with
-  | none => simp [valueParam, nl]
-  | some s =>
-    by_cases h : k ∈ T.multiValue
-    · have : isMulti k = true := by simpa [isMulti] using h
-      simp [valueParam, nl, h, this]
-    · have : isMulti k = false := by simpa [isMulti] using h
-      simp [valueParam, nl, h, this]
 
 theorem serSM_eq (s : SMSimfile) : GenCode.serSM s = Simfile.serSM s := by
   unfold GenCode.serSM Simfile.serSM serProps
